@@ -80,6 +80,34 @@ static void child_canary(void *a)
     sodium_free(p);
     _exit(0);                         /* free returned: the underflow went unnoticed */
 }
+/* structured alterations of the 16-byte canary: the same difference in two bytes (cancels in a checker that XORs words together), the two
+ * 8-byte halves swapped, the canary rotated by one byte, every byte complemented */
+typedef struct { size_t n; int i, j; unsigned char delta; int mode; } carg2;
+static void child_canary2(void *a)
+{
+    carg2 *c = a; unsigned char *p = sodium_malloc(c->n), t[16]; int k;
+    signal(SIGSEGV, SIG_DFL); signal(SIGABRT, SIG_DFL);
+    memcpy(t, p - 16, 16);
+    if (c->mode == 0) { p[-16 + c->i] ^= c->delta; p[-16 + c->j] ^= c->delta; }
+    else if (c->mode == 1) { memcpy(p - 16, t + 8, 8); memcpy(p - 8, t, 8); }
+    else if (c->mode == 2) { for (k = 0; k < 16; k++) p[-16 + k] = t[(k + 1) & 15]; }
+    else { for (k = 0; k < 16; k++) p[-16 + k] = (unsigned char) ~t[k]; }
+    if (memcmp(t, p - 16, 16) == 0) _exit(99);      /* the alteration happened to be the identity (e.g. equal halves): not a case */
+    sodium_free(p);
+    _exit(0);
+}
+static void canary_structured(long w)
+{
+    static const size_t NS[4] = { 0, 1, 100, 4096 }; static const unsigned char DS[3] = { 0x01, 0x80, 0xff }; carg2 c; int st, d; char key[160];
+    c.n = NS[w & 3];
+    for (c.i = 0; c.i < 16; c.i++) for (c.j = c.i + 1; c.j < 16; c.j++) for (d = 0; d < 3; d++) {
+        if ((c.i * 16 + c.j + d) % 4 != (int) (w >> 2)) continue;
+        c.delta = DS[d]; c.mode = 0; st = in_child(child_canary2, &c); n_eval++; n_nontriv++;
+        if (!WIFSIGNALED(st) && !(WIFEXITED(st) && WEXITSTATUS(st) == 99)) { snprintf(key, sizeof key, "sodium_free/underflow/size=%zu/canary-bytes=%d,%d/xor=%02x", c.n, c.i, c.j, c.delta); vf_fail(key, "altering two canary bytes by the same difference was not detected: sodium_free returned (status %x)", st); }
+    }
+    if ((w >> 2) == 0) for (c.mode = 1; c.mode <= 3; c.mode++) { st = in_child(child_canary2, &c); n_eval++; n_nontriv++;
+        if (!WIFSIGNALED(st) && !(WIFEXITED(st) && WEXITSTATUS(st) == 99)) { snprintf(key, sizeof key, "sodium_free/underflow/size=%zu/canary-%s", c.n, c.mode == 1 ? "halves-swapped" : c.mode == 2 ? "rotated" : "complemented"); vf_fail(key, "structured alteration of the canary was not detected: sodium_free returned (status %x)", st); } }
+}
 static volatile uintptr_t expect_fault;
 static void segv_handler(int sig, siginfo_t *si, void *u) { (void) sig; (void) u; _exit((uintptr_t) si->si_addr == expect_fault ? 42 : 43); }
 static void child_overflow(void *a)
@@ -244,6 +272,7 @@ int main(void)
     alarm(3000);
     vf_parallel(16, 0, (long) ((thorough ? 8 : 3) * PG + 2), layout_item, fin);
     vf_parallel(12, 0, 12, protect_size, fin);
+    vf_parallel(16, 0, 16, canary_structured, fin);
     limits(); fin();
     vf_sample("sodium_malloc(4080): user region = last 4080 bytes of one page, p+4080 is the first byte of a PROT_NONE page (kernel probe: pwrite from it -> EFAULT)");
     vf_sample("sodium_malloc(4081): region grows to two pages; canary at p-16..p-1; each canary byte altered in a forked child -> sodium_free must die by signal");
